@@ -1,0 +1,27 @@
+//go:build verif
+
+// Contracts for package centralendpoint, read by /verif's govc. Comment-only.
+package centralendpoint
+
+// C12: the fallback returns one of the four endpoints it was given (never a computed point)
+//@ func GetIntersection
+//@   floats real
+//@   requires len(line1End1) >= 2 && len(line1End2) >= 2 && len(line2End1) >= 2 && len(line2End2) >= 2
+//@   ensures res == line1End1 || res == line1End2 || res == line2End1 || res == line2End2
+//@   modifies nothing
+
+//@ func findNearestPoint
+//@   floats real
+//@   requires len(p) >= 2 && len(pts[0]) >= 2 && len(pts[1]) >= 2 && len(pts[2]) >= 2 && len(pts[3]) >= 2
+//@   ensures res == pts[0] || res == pts[1] || res == pts[2] || res == pts[3]
+//@   modifies nothing
+//@   loop 1:
+//@     invariant 0 <= idx && idx <= 4 && (idx > 0 ==> result == pts[0] || result == pts[1] || result == pts[2] || result == pts[3])
+
+//@ func average
+//@   floats real
+//@   requires len(pts[0]) >= 2 && len(pts[1]) >= 2 && len(pts[2]) >= 2 && len(pts[3]) >= 2
+//@   ensures fresh(res) && len(res) == 2
+//@   modifies nothing
+//@   loop 1:
+//@     invariant 0 <= idx && idx <= 4 && fresh(avg) && len(avg) == 2
